@@ -411,3 +411,9 @@ PLANS["C17"]["k"] += [
 ]
 for _p in ("C01", "C02", "C03"):
     PLANS[_p]["meta"]["bounds"] = list(PLANS[_p]["meta"]["bounds"]) + ["K: integer lattice x_i = OFF + k_i (OFF in {0, 1e9} quick, up to 1e15 thorough; |k_i| <= 4), n = 3 (2 for skewness/kurtosis): bit-precise envelope"]
+
+_mplan("C12", "plan_c12", ["with_const_width of the crate's Histogram10 and of define_histogram! at LEN 1..4 (mirprobe), incl. the slice iterator models"],
+       ["M: edge i = start + i*(end-start)/LEN exactly for every i, all real start < end; LEN+1 edges; zero counts"],
+       ["the few-ulp floating-point accuracy of the edges (an accumulating `edge += step` is algebraically identical and not distinguished)"])
+_mplan("C13", "plan_c13", ["closures of IterWidths / IterBinCenters / IterNormalized / IterVariances, multinomial_variance"],
+       ["M: the value formulas of widths, centers, normalized_bins and (bin) variances for all real edges and counts"], [])
